@@ -371,6 +371,7 @@ func (w *world) opGCInterleaved() {
 	seamMu.Unlock()
 	putsBefore := w.okPuts
 	w.q.GC()
+	w.noteGC()
 	seamMu.Lock()
 	seamGC = nil
 	w.insideGC = false
